@@ -551,6 +551,8 @@ def c12(ctx: Ctx) -> None:
     ctx.rule('C12-R8', 'timed wait: stage-2 clock starts after stage 1, every sleep cycle passes the deadline test, sleep(poll_interval)', 3)
     ctx.rule('C12-R9', 'every path through release() past the is_locked test releases the thread lock, also when the OS release fails', 1)
     ctx.rule('C12-R10', 'the nesting counter is updated only while the in-process lock is held', 1)
+    ctx.rule('C12-R11', 'acquire_ctx() hands its (blocking, timeout, poll_interval) to acquire() unchanged, each in its own position', 1)
+    _rule_forwarding(ctx, r)
     # R1 acquire
     try:
         it, outs = run_acquire(ctx, r)
@@ -690,6 +692,48 @@ def c12(ctx: Ctx) -> None:
     # R6-R8
     _rule_arguments(ctx, r)
     r.publish(ctx)
+
+
+def _rule_forwarding(ctx: Ctx, r: LockRoles) -> None:
+    p = ctx.program
+    f = r.acquire_ctx
+    g = build(f, p, inline_methods=True)
+    aparams = [x for x in r.acquire.params if x != 'self']
+    fparams = [x for x in f.params if x != 'self']
+    calls = [n for n in g.nodes if n.kind == 'call' and callee_info(g, n.ast)['kind'] == 'package'
+             and r.acquire in callee_info(g, n.ast).get('scopes', [])]
+    for n in calls:
+        c = n.ast
+        bound: Dict[str, ast.AST] = {}
+        ok = True
+        pos = list(c.args)
+        if len(pos) == 1 and isinstance(pos[0], ast.Starred):
+            # *args of an inlined helper: the tuple the caller passed
+            v = resolve(g, n, pos[0].value)
+            pos = list(v.elts) if isinstance(v, ast.Tuple) else None
+        if pos is None or any(isinstance(a, ast.Starred) for a in pos):
+            ctx.undecided('C12-R11', f'{norm(c)}', g.loc(n), 'star arguments not resolved')
+            continue
+        for prm, a in zip(aparams, pos):
+            bound[prm] = a
+        for k in c.keywords:
+            if k.arg is not None:
+                bound[k.arg] = k.value
+        from ..dataflow import unalias
+        mism = []
+        for prm in aparams:
+            if prm in bound and prm in fparams:
+                got = norm(unalias(g, n, bound[prm]))
+                if got != prm:
+                    mism.append(f'{prm} <- {got}')
+        missing = [prm for prm in aparams if prm in fparams and prm not in bound and prm in ('blocking', 'timeout')]
+        ctx.check('C12-R11', f'{f.qualname}: {norm(c)}', g.loc(n), not mism and not missing,
+                  'same-named parameters are forwarded to the same-named parameters',
+                  f'arguments reach acquire() in the wrong slot or not at all ({mism + ["missing " + m for m in missing]}): a blocking '
+                  'acquire_ctx() becomes a non-blocking / differently timed one',
+                  construct=construct_key(f.qualname, 'forwarding', mism, missing))
+    if not calls:
+        ctx.violation('C12-R11', 'acquire_ctx() does not call acquire()', f'{FILE}:{f.lineno}', construct=construct_key(f.qualname, 'no acquire'))
 
 
 def _rule_lock_kind(ctx: Ctx, r: LockRoles) -> None:
